@@ -176,7 +176,7 @@ def lean_audit(prop: str, timeout=1800, suffix=""):
 def lean_sources(prop: str):
     """Lean files whose text belongs to this property (grepped for forbidden constructs)."""
     files = []
-    for sub in ("Model", "Proofs", "Generated", "Basic"):
+    for sub in ("Model", "Proofs", "Generated", "ProofsGen", "Basic"):
         d = LEAN_DIR / "RpylibModel" / sub
         if d.exists():
             files += sorted(d.rglob("*.lean"))
